@@ -253,6 +253,7 @@ def run(tier):
                       "mid-build; plus EVERY truncation offset for a fixed family of two graphs. Non-trivial: (A) a build in which the dyndep file was "
                       "produced and adds an input that is itself generated; (B) the variant is invalid.",
                       simprops.ASSUME + ["implicit outputs added by a dyndep file are consumed only through dyndep-added inputs of statements bound to the same file"])
+    simprops.replay_regressions(ck, PROP)
     n = 40000 if thorough else 4000
     simcheck.campaign(ck, PROPS, n, max_edges=7, max_ops=8, features=dict(dyndep=True), with_failures=False, runner_name='dyndep_inline',
                       nontrivial_fn=lambda g, ops, sim, feats: 'dyndep_built_and_adds_generated_input' in sim.labels)
